@@ -39,6 +39,7 @@ type Frame struct {
 }
 
 type AssertRec struct {
+	Prefix []int
 	Name   string
 	Status string // proved | violated | unknown | trivially-true
 	Model  map[string]uint64
@@ -91,6 +92,13 @@ type Exec struct {
 	callLog   []string
 	feasMemo  map[string]bool
 	regexMemo map[string]*rxProg
+	sess      *Session
+	pendingModel map[string]uint64
+	pendingFor   *Term
+	pcSet     map[int]bool
+	pcDirty   bool
+	lastModel map[string]uint64 // a model of the current path condition, if known
+	evalMemo  map[int]uint64
 }
 
 type RunOpts struct {
@@ -105,11 +113,17 @@ func NewExec(ld *Loaded, solver *Solver, hooks map[string]*ssa.Function, opts *R
 	ex := &Exec{ld: ld, tb: NewTB(), solver: solver, hooks: hooks, opts: opts}
 	ex.feasMemo = map[string]bool{}
 	ex.regexMemo = map[string]*rxProg{}
+	ex.sess = solver.NewSession(ex.tb)
 	return ex
 }
 
 func (ex *Exec) resetPath(prefix []int) {
 	ex.pc = nil
+	ex.pcSet = map[int]bool{}
+	ex.pcDirty = false
+	ex.lastModel = map[string]uint64{}
+	ex.evalMemo = map[int]uint64{}
+	ex.sess.Begin()
 	ex.decisions = prefix
 	ex.decIdx = 0
 	ex.res = &PathResult{Prefix: prefix}
@@ -176,6 +190,12 @@ func (ex *Exec) RunPath(fn *ssa.Function, prefix []int) (res *PathResult) {
 	ex.lenient = false
 	ex.callFunction(fn, nil, nil)
 	res.End = "return"
+	// a concrete input vector that follows this path (evidence sample)
+	if ex.lastModel != nil {
+		res.Inputs = ex.lastModel
+	} else if cr := ex.sess.Check(nil, true); cr.Res == "sat" {
+		res.Inputs = cr.Model
+	}
 	return res
 }
 
@@ -192,7 +212,7 @@ func (ex *Exec) where() string {
 // recordPanic: an uncaught Go panic on a feasible path is an implicit assertion failure.
 func (ex *Exec) recordPanic(p *goPanic) {
 	rec := AssertRec{Name: "no-panic", Status: "violated", Detail: p.desc + ex.where()}
-	cr := ex.solver.Check(ex.tb, ex.pc, true)
+	cr := ex.sess.Check(nil, true)
 	if cr.Res == "sat" {
 		rec.Model = cr.Model
 	} else if cr.Res == "unsat" {
@@ -225,11 +245,21 @@ func (ex *Exec) feasible(extra *Term) bool {
 	if extra.IsFalse() {
 		return false
 	}
+	if ex.pcSet[extra.ID] && !ex.pcDirty {
+		return true
+	}
+	if ex.lastModel != nil && ex.modelSat(extra) {
+		return true
+	}
 	k := pcKey(ex.pc, extra)
 	if v, ok := ex.feasMemo[k]; ok {
 		return v
 	}
-	cr := ex.solver.Check(ex.tb, append(append([]*Term{}, ex.pc...), extra), false)
+	cr := ex.sess.Check([]*Term{extra}, true)
+	if cr.Res == "sat" && cr.Model != nil && !hasApps(extra) {
+		ex.pendingModel = cr.Model
+		ex.pendingFor = extra
+	}
 	r := cr.Res != "unsat" // unknown = keep
 	if cr.Res == "error" {
 		panic(unsupported("solver error: " + cr.Raw))
@@ -239,10 +269,66 @@ func (ex *Exec) feasible(extra *Term) bool {
 }
 
 func (ex *Exec) addPC(c *Term) {
-	if c.IsTrue() {
+	if c.IsTrue() || ex.pcSet[c.ID] {
 		return
 	}
 	ex.pc = append(ex.pc, c)
+	ex.pcSet[c.ID] = true
+	if ex.lastModel != nil && !ex.modelSat(c) {
+		ex.lastModel = nil
+	}
+	if ex.lastModel == nil && ex.pendingFor == c && ex.pendingModel != nil {
+		ex.lastModel = ex.pendingModel
+		ex.evalMemo = map[int]uint64{}
+	}
+	ex.pendingFor, ex.pendingModel = nil, nil
+	if c.Op == OpAnd {
+		for _, a := range c.Args {
+			ex.pcSet[a.ID] = true
+		}
+	}
+	ex.sess.Assert(c)
+}
+
+// modelSat: does the cached model satisfy c?  Terms with uninterpreted applications are not evaluated.
+func (ex *Exec) modelSat(c *Term) bool {
+	if hasApps(c) {
+		return false
+	}
+	return ex.tb.Eval(c, ex.lastModel, ex.evalMemo) == 1
+}
+
+var appMemo = map[*Term]bool{}
+
+func hasApps(t *Term) bool {
+	seen := map[int]bool{}
+	var walk func(t *Term) bool
+	walk = func(t *Term) bool {
+		if seen[t.ID] {
+			return false
+		}
+		seen[t.ID] = true
+		if t.Op == OpApp {
+			return true
+		}
+		for _, a := range t.Args {
+			if walk(a) {
+				return true
+			}
+		}
+		return false
+	}
+	return walk(t)
+}
+
+// settle makes sure the path condition is still satisfiable after lazily added assumptions.
+func (ex *Exec) settle() {
+	if ex.pcDirty {
+		ex.pcDirty = false
+		if !ex.feasible(ex.tb.True) {
+			panic(pathEnd{"assume-infeasible"})
+		}
+	}
 }
 
 // choose picks one of the alternatives (mutually exclusive conditions).
@@ -254,7 +340,13 @@ func (ex *Exec) choose(conds []*Term) int {
 		return d
 	}
 	first := -1
+	ex.pcDirtyFlush()
 	for i, c := range conds {
+		if i == len(conds)-1 && first < 0 && len(conds) == 2 {
+			// the path condition is satisfiable and conds are exhaustive: the last one must be feasible
+			first = i
+			continue
+		}
 		if !ex.feasible(c) {
 			continue
 		}
@@ -281,8 +373,16 @@ func (ex *Exec) branch(c *Term) bool {
 	if c.IsFalse() {
 		return false
 	}
+	if ex.pcSet[c.ID] {
+		return true
+	}
+	if ex.pcSet[ex.tb.Not(c).ID] {
+		return false
+	}
 	return ex.choose([]*Term{c, ex.tb.Not(c)}) == 0
 }
+
+func (ex *Exec) pcDirtyFlush() { ex.settle() }
 
 // concInt forks over the feasible values of t (at most concLimit).
 func (ex *Exec) concInt(t *Term, what string) int {
@@ -298,7 +398,7 @@ func (ex *Exec) concInt(t *Term, what string) int {
 	var vals []int
 	var block []*Term
 	for {
-		cr := ex.solver.Check(ex.tb, append(append(append([]*Term{}, ex.pc...), block...), ex.tb.Eq(t, t)), true)
+		cr := ex.sess.Check(append([]*Term{ex.tb.Mention(t)}, block...), true)
 		if cr.Res == "unsat" {
 			break
 		}
